@@ -25,12 +25,12 @@ theorem addBlockInterest_err {w w' : W} {fin : Nat} {e : Err} (h : addBlockInter
   · simp [pure, Except.pure] at h
 
 theorem addBlockInterest_good {w w' : W} {fin : Nat} (hg : Good w) (h : addBlockInterest w fin = .ok w') :
-    Good w' ∧ w'.mtp.key = w.mtp.key ∧ w'.pool.sym = w.pool.sym := by
+    Good w' ∧ w'.mtp.key = w.mtp.key ∧ w'.pool.sym = w.pool.sym ∧ w'.s = w.s := by
   obtain ⟨hs, hm, hp⟩ := addBlockInterest_ok h
-  refine ⟨hg.congr (by rw [hs]; exact LedgerSame.refl _) hp (by rw [hm]; exact MtpSame.refl _), by rw [hm], hp.1⟩
+  refine ⟨hg.congr (by rw [hs]; exact LedgerSame.refl _) hp (by rw [hm]; exact MtpSame.refl _), by rw [hm], hp.1, hs⟩
 
 theorem interestBlock_good {fx : Fixes} (hfx : fx.iipCopy = true) {w w' : W} (hg : Good w) (h : interestBlock fx w = .ok w') :
-    Good w' ∧ w'.mtp.key = w.mtp.key ∧ w'.pool.sym = w.pool.sym := by
+    Good w' ∧ w'.mtp.key = w.mtp.key ∧ w'.pool.sym = w.pool.sym ∧ Frame w.s w'.s w.mtp.key w.pool.sym := by
   unfold interestBlock at h
   split at h
   · obtain ⟨ip, _, h⟩ := bind_ok h
@@ -38,22 +38,32 @@ theorem interestBlock_good {fx : Fixes} (hfx : fx.iipCopy = true) {w w' : W} (hg
     obtain ⟨w1, hw1, h⟩ := bind_ok h
     obtain ⟨hh, _, h⟩ := bind_ok h
     have h := pure_ok h
-    obtain ⟨g1, k1, s1⟩ := (handleInterestPayment_good hfx hg).1 fw hfw
-    obtain ⟨g2, k2, s2⟩ := addBlockInterest_good g1 hw1
+    obtain ⟨g1, k1, s1, f1⟩ := (handleInterestPayment_good hfx hg).1 fw hfw
+    obtain ⟨g2, k2, s2, e2⟩ := addBlockInterest_good g1 hw1
     rw [← h]
-    exact ⟨g2.congr (LedgerSame.refl _) (Pool.sameLedger_refl _) ⟨rfl, rfl, rfl, rfl, rfl, rfl⟩, k2.trans k1, s2.trans s1⟩
-  · simp at h; rw [← h]; exact ⟨hg, rfl, rfl⟩
+    refine ⟨g2.congr (LedgerSame.refl _) (Pool.sameLedger_refl _) ⟨rfl, rfl, rfl, rfl, rfl, rfl⟩, k2.trans k1, s2.trans s1, ?_⟩
+    simp only []; rw [e2]; exact f1
+  · simp at h; rw [← h]; exact ⟨hg, rfl, rfl, Frame.refl _ _ _⟩
 
 theorem forceCloseLong_good {fx : Fixes} (hfx : fx.iipCopy = true) {w w' : W} {a t : Bool} {r : Nat} (hg : Good w)
     (h : forceCloseLong fx w a t = .ok (r, w')) :
-    OKp w'.s ∧ WFp w'.s ∧ getMtpL w'.s.mtps w.mtp.key = none := by
+    OKp w'.s ∧ WFp w'.s ∧ getMtpL w'.s.mtps w.mtp.key = none ∧ Frame w.s w'.s w.mtp.key w.pool.sym ∧
+      getPoolL w'.s.pools w'.pool.sym = some w'.pool ∧ w'.pool.sym = w.pool.sym := by
   unfold forceCloseLong at h
   obtain ⟨w1, hw1, h⟩ := bind_ok h
   obtain ⟨_, _, h⟩ := bind_ok h
-  obtain ⟨g1, k1, _⟩ := interestBlock_good hfx hg hw1
+  obtain ⟨g1, k1, s1, f1⟩ := interestBlock_good hfx hg hw1
   have := closeTail_good g1 h
   rw [k1] at this
-  exact this
+  obtain ⟨t1, t2, t3, t4, t5, t6⟩ := this
+  refine ⟨t1, t2, t3, ⟨?_, ?_⟩, ?_, t6.trans s1⟩
+  · intro k' hk'
+    rw [t4, getMtpL_del_other _ hk']
+    exact f1.mtps k' hk'
+  · intro y hy
+    rw [t5, getPoolL_setPoolL_other _ (by rw [t6, s1]; exact hy)]
+    exact f1.pools y hy
+  · rw [t5]; exact getPoolL_set _ _
 
 /-- a world built from a stored position and its stored pool is good -/
 theorem Good.of_lookup {s : State} {m : Mtp} {p : Pool} {a : Addr} {id : Nat} (hok : OKp s) (hwf : WFp s)
@@ -82,13 +92,13 @@ theorem closeMsg_good {fx : Fixes} (hfx : fx.iipCopy = true) {s : State} {a : Ad
   have h := dropW_ok h
   obtain ⟨w1, hw1, h⟩ := bind_ok h
   obtain ⟨hg, hk⟩ := Good.of_lookup hok hwf hm hp
-  obtain ⟨g1, k1, _⟩ := interestBlock_good hfx hg hw1
+  obtain ⟨g1, k1, _, _⟩ := interestBlock_good hfx hg hw1
   obtain ⟨r1, r2⟩ := r
   have := closeTail_good g1 h
   rw [k1] at this
   simp only [] at this
   rw [hk] at this
-  exact this
+  exact ⟨this.1, this.2.1, this.2.2.1⟩
 
 theorem adminCloseMsg_good {fx : Fixes} (hfx : fx.iipCopy = true) {s : State} {signer a : Addr} {id : Nat} {t : Bool} {r : Nat × W}
     (hok : OKp s) (hwf : WFp s) (h : adminCloseMsg fx s signer a id t = .ok r) :
@@ -104,6 +114,173 @@ theorem adminCloseMsg_good {fx : Fixes} (hfx : fx.iipCopy = true) {s : State} {s
   have := forceCloseLong_good hfx hg h
   simp only [] at this
   rw [hk] at this
-  exact ⟨this.1, this.2.1, this.2.2, ensure_ok hadm⟩
+  exact ⟨this.1, this.2.1, this.2.2.1, ensure_ok hadm⟩
+
+end Sif.Margin
+
+namespace Sif.Margin
+open Sif Sif.Spec.C13
+
+/-- `Borrow` of a new position (id 0): what is stored and how the pool's liabilities move -/
+theorem borrow_ok {w w' : W} {ca : Asset} {amt cust : Nat} {eta : Dec} (hid : w.mtp.id = 0)
+    (h : borrow w ca amt cust eta = .ok w') :
+    ∃ la, w'.mtp.addr = w.mtp.addr ∧ w'.mtp.id = (w.s.mtpCount + 1) % u64 ∧ w'.mtp.coll = w.mtp.coll ∧
+      w'.mtp.cust = w.mtp.cust ∧ w'.mtp.pos = w.mtp.pos ∧ w'.mtp.liab = w.mtp.liab + la ∧
+      w'.mtp.custody = w.mtp.custody + cust ∧
+      w'.pool.sym = w.pool.sym ∧ (∀ b, w'.pool.cust b = w.pool.cust b) ∧
+      (∀ b, w'.pool.liab b = if b = isNative w.mtp.coll then w.pool.liab b + w'.mtp.liab else w.pool.liab b) ∧
+      w'.s.pools = setPoolL w.s.pools w'.pool ∧ w'.s.mtps = setMtpL w.s.mtps w'.mtp ∧
+      w'.s.mtpCount = (w.s.mtpCount + 1) % u64 ∧ w'.s.openCount = (w.s.openCount + 1) % u64 := by
+  unfold borrow at h
+  obtain ⟨_, _, h⟩ := bind_ok h
+  obtain ⟨liabDec, _, h⟩ := bind_ok h
+  obtain ⟨c1, _, h⟩ := bind_ok h
+  obtain ⟨la, _, h⟩ := bind_ok h
+  obtain ⟨l1, hl1, h⟩ := bind_ok h
+  obtain ⟨cu, hcu, h⟩ := bind_ok h
+  obtain ⟨lev, _, h⟩ := bind_ok h
+  obtain ⟨hh, _, h⟩ := bind_ok h
+  obtain ⟨bank, _, h⟩ := bind_ok h
+  obtain ⟨b, _, h⟩ := bind_ok h
+  obtain ⟨l, hl, h⟩ := bind_ok h
+  have hl1' := uadd_ok (liftM_ok hl1)
+  have hcu' := uadd_ok (liftM_ok hcu)
+  have hl' := uadd_ok (liftM_ok hl)
+  simp only [] at hl1' hcu' hl'
+  have h' := storeMtp_ok_new (by exact hid) h
+  simp only [] at h'
+  rw [h']
+  refine ⟨la, rfl, rfl, rfl, rfl, rfl, hl1', hcu', by simp, ?_, ?_, rfl, rfl, rfl, rfl⟩
+  · intro b'; simp
+  · intro b'
+    simp only [storePool_pool, liab_setLiab, liab_setBal]
+    by_cases hb : b' = isNative w.mtp.coll
+    · subst hb; simp; rw [hl']; simp
+    · simp [hb]
+
+/-- `Open`: the new position and its pool move together -/
+theorem openMsg_good {fx : Fixes} (hfx : fx.openPair = true) {s : State} {msg : MsgOpen} {w : W}
+    (hok : OKp s) (hwf : WFp s) (hcnt : s.mtpCount + 1 < u64) (h : openMsg fx s msg = .ok w) :
+    OKp w.s ∧ WFp w.s := by
+  unfold openMsg at h
+  obtain ⟨_, _, h⟩ := bind_ok h
+  obtain ⟨_, _, h⟩ := bind_ok h
+  obtain ⟨_, _, h⟩ := bind_ok h
+  obtain ⟨_, _, h⟩ := bind_ok h
+  obtain ⟨_, _, h⟩ := bind_ok h
+  obtain ⟨_, hposition, h⟩ := bind_ok h
+  unfold openLong at h
+  obtain ⟨eta, _, h⟩ := bind_ok h
+  obtain ⟨_, _, h⟩ := bind_ok h
+  obtain ⟨pool, hpool, h⟩ := bind_ok h
+  obtain ⟨_, _, h⟩ := bind_ok h
+  obtain ⟨levDec, _, h⟩ := bind_ok h
+  obtain ⟨levAmt, _, h⟩ := bind_ok h
+  obtain ⟨_, _, h⟩ := bind_ok h
+  obtain ⟨_, _, h⟩ := bind_ok h
+  obtain ⟨custody, _, h⟩ := bind_ok h
+  obtain ⟨_, _, h⟩ := bind_ok h
+  obtain ⟨_, hpair, h⟩ := bind_ok h
+  have h := dropW_ok h
+  unfold openWrites at h
+  obtain ⟨w1, hw1, h⟩ := bind_ok h
+  obtain ⟨w2, hw2, h⟩ := bind_ok h
+  obtain ⟨w3, hw3, h⟩ := bind_ok h
+  obtain ⟨lr, _, h⟩ := bind_ok h
+  obtain ⟨_, _, h⟩ := bind_ok h
+  have h := pure_ok h
+  subst h
+  have hposition := ensure_ok hposition
+  have hpair := ensure_ok hpair
+  simp only [hfx, Bool.not_true, Bool.false_or] at hpair
+  simp at hposition
+  -- the pool
+  have hp0 : getPoolL s.pools (if isNative msg.coll then msg.borrow else msg.coll) = some pool := by
+    unfold State.getPool at hpool
+    split at hpool
+    · rename_i p hp; simp at hpool; rw [← hpool]; exact hp
+    · simp at hpool
+  obtain ⟨_, hpsym⟩ := getPoolL_some hp0
+  -- the three writes
+  obtain ⟨la, ha, hid1, hcoll, hcust, hpos, hliab, hcustody, hsym1, hc1, hl1, hpools1, hmtps1, hmc1, hoc1⟩ :=
+    borrow_ok (by rfl) hw1
+  obtain ⟨hh, rfl⟩ := updatePoolHealth_ok hw2
+  obtain ⟨c3, b3, hc3, hw3e⟩ := takeInCustody_ok hw3
+  simp only [newMtp] at ha hid1 hcoll hcust hpos hliab hcustody hmc1 hoc1 hc1 hl1
+  have hM3 : w3.mtp = w1.mtp := by rw [hw3e]; rfl
+  have hP : w3.s.pools = setPoolL s.pools w3.pool := by
+    rw [hw3e]
+    simp only [storePool_pools, storePool_pool]
+    rw [setPoolL_collapse _ _ _ (by simp), hpools1, setPoolL_collapse _ _ _ (by simp)]
+  have hMs : w3.s.mtps = setMtpL s.mtps w1.mtp := by rw [hw3e]; simp only [storePool_mtps]; exact hmtps1
+  have hOC3 : w3.s.openCount = w1.s.openCount := by rw [hw3e]; rfl
+  have hMC3 : w3.s.mtpCount = w1.s.mtpCount := by rw [hw3e]; rfl
+  have hS3 : w3.pool.sym = pool.sym := by rw [hw3e]; simp [hsym1]
+  have hC3 : ∀ b, w3.pool.cust b = if b = isNative w1.mtp.cust then pool.cust b + w1.mtp.custody else pool.cust b := by
+    intro b
+    rw [hw3e]
+    simp only [storePool_pool, storePool_mtp, cust_setCust, cust_setBal, cust_health] at hc3 ⊢
+    rw [hc3, hc1]
+    by_cases hb : b = isNative w1.mtp.cust
+    · subst hb; simp
+    · simp [hb, hc1]
+  have hL3 : ∀ b, w3.pool.liab b = w1.pool.liab b := by
+    intro b; rw [hw3e]; simp
+  unfold OKp
+  rw [hP, hMs, hOC3]
+  have hoc : s.openCount + 1 < u64 := by
+    have := hok.count; have := hwf.len; omega
+  have hmc1' : w1.s.mtpCount = s.mtpCount + 1 := by rw [hmc1]; exact Nat.mod_eq_of_lt hcnt
+  have hoc1' : w1.s.openCount = s.openCount + 1 := by rw [hoc1]; exact Nat.mod_eq_of_lt hoc
+  have hid1' : w1.mtp.id = s.mtpCount + 1 := by rw [hid1]; exact Nat.mod_eq_of_lt hcnt
+  have hnone : getMtpL s.mtps w1.mtp.key = none := by
+    rw [getMtpL_none]
+    intro x hx hk
+    have := (hwf.ids x hx).1
+    have hk2 : x.id = w1.mtp.id := by unfold Mtp.key at hk; exact (Prod.mk.inj hk).2
+    omega
+  have hnsym : w1.mtp.poolSym = pool.sym := by
+    unfold Mtp.poolSym; rw [hcoll, hcust, hpsym]
+  refine ⟨?_, ?_⟩
+  · rw [hoc1']
+    apply OKc_trans (sym := pool.sym) (p0 := pool) (old := none) (new := some w1.mtp) hok hwf.syms (by rw [hpsym]; exact hp0)
+      hS3 (Trans.add hnone)
+    · intro o ho; cases ho
+    · intro n hn; cases hn; exact hnsym
+    · intro b
+      simp only [Option.map_none, Option.getD_none, Option.map_some, Option.getD_some, custOf_eq _ _ _ hnsym, Nat.add_zero]
+      rw [hC3 b]
+      by_cases hb : b = isNative w1.mtp.cust
+      · simp [hb]
+      · simp [hb]
+    · intro b
+      simp only [Option.map_none, Option.getD_none, Option.map_some, Option.getD_some, liabOf_eq _ _ _ hnsym,
+        Nat.add_zero, hL3 b, hl1, hcoll]
+      by_cases hb : b = isNative msg.coll
+      · simp [hb]
+      · simp [hb]
+    · simp
+  · apply WFp_of hwf
+    · rw [hP]
+      exact syms_setPoolL (p0 := pool) (by rw [hS3, hpsym]; exact hp0)
+    · rw [hMs, setMtpL_absent hnone]
+      have hperm := keys_insert_perm s.mtps w1.mtp
+      rw [hperm.nodup_iff, List.nodup_cons]
+      refine ⟨?_, hwf.keys⟩
+      intro hmem
+      simp only [List.mem_map] at hmem
+      obtain ⟨x, hx, hxk⟩ := hmem
+      exact (getMtpL_none.mp hnone) x hx hxk
+    · intro m hm
+      rw [hMs, setMtpL_absent hnone] at hm
+      rw [hMC3, hmc1']
+      rcases mem_insert.mp hm with rfl | hm
+      · refine ⟨by omega, by omega, ?_, by rw [hpos]; exact hposition⟩
+        unfold pairOK; rw [hcoll, hcust]; exact hpair
+      · have := hwf.ids m hm
+        exact ⟨by omega, this.2.1, this.2.2.1, this.2.2.2⟩
+    · rw [hMs, setMtpL_absent hnone, length_insert, hMC3, hmc1']
+      have := hwf.len; omega
+    · rw [hMC3, hmc1']; exact hcnt
 
 end Sif.Margin
